@@ -68,6 +68,13 @@ impl FileSystem {
         self.resolve_abs_path(dir.join(file_path))
     }
 
+    /// Verification hook: exposes the object path resolution, compiled only with `--cfg s3s_verif`.
+    #[cfg(s3s_verif)]
+    #[doc(hidden)]
+    pub fn __verif_object_path(&self, bucket: &str, key: &str) -> Option<PathBuf> {
+        self.get_object_path(bucket, key).ok()
+    }
+
     /// resolve bucket path under the virtual root
     pub(crate) fn get_bucket_path(&self, bucket: &str) -> Result<PathBuf> {
         let dir = Path::new(&bucket);
